@@ -100,9 +100,10 @@ def alphabets(tier):
     mr_more = [L("RX", [0], PI), L("PhaseShift", [0], G), L("PhaseShift", [0], -G), L("CRZ", [0, 1], G), L("CRZ", [0, 1], 4 * PI - G),
                L("Rot", [0], 0.1, PI, 0.2), L("RZ", [0], -G), A(S0), L("ControlledPhaseShift", [0, 1], -G)]
     P["merge_rotations"] = dict(
-        fn="merge_rotations", alphabet=mr if q else mr + mr_more, maxlen=3,
+        fn="merge_rotations", alphabet=mr if q else mr + mr_more, maxlen=2 if q else 3,
         options=[{}, {"atol": 0.0}, {"include_gates": ["RX", "CRX"]}, {"include_gates": ["Rot", "IsingXX"], "atol": 1e-6}],
-        extra=[] if q else [(mr, 4, 4, [{}, {"include_gates": ["RX", "CRX"]}])], tol=1e-6, kind="unitary")
+        extra=[(mr, 3, 3, [{}, {"include_gates": ["RX", "CRX"]}])] if q else [(mr, 4, 4, [{}, {"include_gates": ["RX", "CRX"]}])],
+        tol=1e-6, kind="unitary")
 
     # ---- commute_controlled: 1-qubit gates on control / target of controlled gates, both directions, multi-hop index arithmetic
     cc_single = [X0, X1, Z0, Z1, S0, L("RZ", [1], G), L("RX", [0], G), L("RX", [1], G), L("RY", [1], G), Y1, H0, H1,
@@ -122,9 +123,9 @@ def alphabets(tier):
           L("Rot", [0], *rot_b), L("PhaseShift", [0], G), H1, L("RZ", [1], G), CNOT01, CNOT10, ["QU", "haar2", [0]]]
     sf_more = [Y0, Z0, L("RY", [0], -G), L("U3", [0], 0.1, 0.2, 0.3), L("RY", [0], PI), L("Identity", [0]), ["QU", "iX", [0]], CZ01]
     P["single_qubit_fusion"] = dict(
-        fn="single_qubit_fusion", alphabet=sf if q else sf + sf_more, maxlen=3,
+        fn="single_qubit_fusion", alphabet=sf if q else sf + sf_more, maxlen=2 if q else 3,
         options=[{}, {"atol": 0.0}, {"exclude_gates": ["RZ"]}, {"exclude_gates": ["Hadamard", "CNOT"]}],
-        extra=[] if q else [([H0, S0, A(S0), L("RX", [0], G), L("RZ", [0], G), L("RZ", [0], -G), L("Rot", [0], *rot_a),
+        extra=[(sf, 3, 3, [{}, {"exclude_gates": ["RZ"]}])] if q else [([H0, S0, A(S0), L("RX", [0], G), L("RZ", [0], G), L("RZ", [0], -G), L("Rot", [0], *rot_a),
                               L("Rot", [0], *rot_b), H1, CNOT01, CNOT10, ["QU", "haar2", [0]]], 4, 4)], tol=1e-6, kind="unitary")
 
     # ---- undo_swaps: wire map run right-to-left; SWAP by name only
@@ -169,7 +170,8 @@ def alphabets(tier):
     copts += [{}, {"num_passes": 2}, {"basis_set": ["RX", "RY", "RZ", "CNOT"], "num_passes": 2}]
     cp = [H0, X1, S0, A(S0), L("RX", [0], G), L("RX", [0], -G), L("RZ", [1], G), CNOT01, CNOT10, CZ10, ["Barrier", [0, 1]],
           L("CRX", [0, 1], G)]
-    P["compile"] = dict(fn="compile", alphabet=cp, maxlen=2, options=copts,
+    cp8 = [H0, S0, A(S0), L("RX", [0], G), L("RX", [0], -G), CNOT01, CNOT10, ["Barrier", [0, 1]]]
+    P["compile"] = dict(fn="compile", alphabet=cp8 if q else cp, maxlen=2, options=copts,
                         extra=[] if q else [([H0, S0, A(S0), L("RX", [0], G), L("RX", [0], -G), CNOT01, CNOT10, ["Barrier", [0, 1]]], 3, 3)],
                         tol=1e-6, kind="unitary")
 
